@@ -198,7 +198,7 @@ fn run_set<S: PS>(ctx: &Ctx) -> Acc {
         acc.merge(a);
     }
     // ---- (b)/(c) matrix shapes ---------------------------------------------------------------------
-    let n_jobs = ctx.budget(24, 400) as usize;
+    let n_jobs = ctx.budget(24, 2400) as usize;
     let accs = par_map(n_jobs, |i| {
         let mut a = Acc::new();
         let mut g = Prng::derive(ctx.seed, &format!("c18b-{}", p.name), i as u64);
@@ -354,7 +354,7 @@ fn run_set<S: PS>(ctx: &Ctx) -> Acc {
     }
     // ---- mat_vec_mul with arbitrary (not ExpandA-derived) matrix entries: all slots equal ---------------
     {
-        let n_pairs = ctx.budget(6_000, 200_000) as usize;
+        let n_pairs = ctx.budget(6_000, 1_000_000) as usize;
         let accs = par_map(64, |ch| {
             let mut a = Acc::new();
             let mut g = Prng::derive(ctx.seed, &format!("c18-mv-{}", p.name), ch as u64);
